@@ -1154,6 +1154,300 @@ def stream_shapes(ctx, ecs):
                             got, ref, j['ec'].name), desc)
 
 
+# ------------------------------------------------------------------------------------------------ stream (d)
+ARRAY_KEYS = ('r', 'z', 'psi', 'f', 'q', 'lcfs', 'lim')
+
+
+def alias_sources(rng):
+    """constructor inputs as plain float64 C arrays: the bundled example data, a Solov'ev grid, an integer-valued grid"""
+    import cherab.tools.equilibrium as cte
+    d = json.load(open(os.path.join(os.path.dirname(cte.__file__), 'example.json')))
+    out = [dict(name='example', r=np.array(d['r']), z=np.array(d['z']), psi=np.array(d['psi']), f=np.array(d['f_profile']),
+                q=np.array(d['q_profile']), lcfs=np.array(d['lcfs_polygon']), lim=np.array(d['limiter_polygon']),
+                axis=d['psi_axis'], lcfsv=d['psi_lcfs'], ax=tuple(d['axis_coord']), rvac=d['b_vacuum_radius'], bvac=d['b_vacuum_magnitude'], intable=False)]
+    # integer-valued: circular flux surfaces psi = (R-15)^2 + Z^2 on an integer grid, LCFS radius 10
+    r = np.arange(1.0, 31.0)
+    z = np.arange(-15.0, 16.0)
+    RR, ZZ = np.meshgrid(r, z, indexing='ij')
+    oct_ = [(24, 0), (21, 6), (15, 9), (9, 6), (6, 0), (9, -6), (15, -9), (21, -6)]
+    out.append(dict(name='intgrid', r=r, z=z, psi=(RR - 15.0) ** 2 + ZZ ** 2, f=np.array([[0.0, 1.0, 2.0], [30.0, 32.0, 31.0]]),
+                    q=np.array([[0.0, 1.0], [1.0, 3.0]]), lcfs=np.array(oct_, dtype=float).T.copy(),
+                    lim=np.array([[3.0, 28.0, 28.0, 3.0], [-13.0, -13.0, 13.0, 13.0]]),
+                    axis=0.0, lcfsv=100.0, ax=(15.0, 0.0), rvac=15.0, bvac=2.0, intable=True))
+    return out
+
+
+def alias_build(src, arrays):
+    from raysect.core import Point2D
+    from cherab.tools.equilibrium.efit import EFITEquilibrium
+    a = arrays
+    return EFITEquilibrium(a['r'], a['z'], a['psi'], src['axis'], src['lcfsv'], Point2D(*src['ax']), [], [], a['f'], a['q'],
+                           src['rvac'], src['bvac'], a['lcfs'], a['lim'], 0.0)
+
+
+def alias_points(src):
+    r, z = src['r'], src['z']
+    ax = src['ax']
+    fr = [(0.0, 0.0), (0.03, 0.02), (0.12, -0.05), (0.2, 0.1), (-0.15, 0.12), (0.33, 0.3), (-0.3, -0.35), (0.42, -0.4)]
+    span = (float(r[-1] - r[0]), float(z[-1] - z[0]))
+    pts = [(ax[0] + a * span[0], ax[1] + b * span[1]) for a, b in fr]
+    return [(x, y) for x, y in pts if r[0] <= x <= r[-1] and z[0] <= y <= z[-1]]
+
+
+ALIAS_PROFILE_X = [-0.1, 0.3, 0.7, 1.2]      # abscissa deliberately wider than [0, 1]
+
+
+def alias_profiles():
+    x = ALIAS_PROFILE_X
+    return dict(te=np.array([x, [10.0, 40.0, 20.0, 5.0]]), tor=np.array([x, [1e4, 3e4, 2e4, 1e3]]),
+                pol=np.array([x, [4e3, 1e3, -2e3, 0.0]]), nrm=np.array([x, [10.0, -20.0, 5.0, 1.0]]))
+
+
+def alias_maps(eq, P):
+    return dict(map2d=eq.map2d(P['te'], -1.0), map3d=eq.map3d(P['te'], -1.0),
+                map_vector2d=eq.map_vector2d(P['tor'], P['pol'], P['nrm']), map_vector3d=eq.map_vector3d(P['tor'], P['pol'], P['nrm']))
+
+
+def bits(v):
+    if v is None:
+        return 'None'
+    if hasattr(v, 'x') and hasattr(v, 'z'):
+        return fs(vt(v))
+    if isinstance(v, np.ndarray):
+        return '%s:%s' % (v.shape, np.ascontiguousarray(v, dtype=np.float64).tobytes().hex())
+    if isinstance(v, (tuple, list)):
+        return '(' + ','.join(bits(t) for t in v) + ')'
+    return f2b(v)
+
+
+ATTRS = ('r_data', 'z_data', 'psi_data', 'lcfs_polygon', 'limiter_polygon', 'r_range', 'z_range', 'psi_axis', 'psi_lcfs')
+
+
+def alias_probe(eq, maps, pts, attrs=True):
+    """every observable of the property as bit patterns: {name: string}"""
+    out = {}
+    for i, (r, z) in enumerate(pts):
+        for nm, f in (('psi', eq.psi), ('psi_normalised', eq.psi_normalised), ('b_field', eq.b_field), ('poloidal_vector', eq.poloidal_vector),
+                      ('surface_normal', eq.surface_normal), ('inside_lcfs', eq.inside_lcfs), ('inside_limiter', eq.inside_limiter)):
+            st, v = call(f, r, z) if f is not None else ('ok', None)
+            out['%s@%d' % (nm, i)] = bits(v) if st == 'ok' else st
+        for nm in ('map2d', 'map_vector2d'):
+            st, v = call(maps[nm], r, z)
+            out['%s@%d' % (nm, i)] = bits(v) if st == 'ok' else st
+        x, y = r * 0.6, r * 0.8
+        for nm in ('map3d', 'map_vector3d'):
+            st, v = call(maps[nm], x, y, z)
+            out['%s@%d' % (nm, i)] = bits(v) if st == 'ok' else st
+    for nm, f, a in (('f_profile', eq.f_profile, 0.3), ('q', eq.q, 0.3), ('psin_to_r', eq.psin_to_r, 0.5)):
+        st, v = call(f, a) if f is not None else ('ok', None)
+        out[nm] = bits(v) if st == 'ok' else st
+    if attrs:
+        for nm in ATTRS:
+            out['attr:' + nm] = bits(getattr(eq, nm))
+    return out
+
+
+def alias_diff(a, b, skip=()):
+    return sorted(k for k in a if k not in skip and a[k] != b.get(k))
+
+
+def conv_fortran(x):
+    return np.asfortranarray(x)
+
+
+def conv_strided(x):
+    if x.ndim == 1:
+        big = np.full(2 * len(x) + 1, 777.0)
+        big[1::2] = x
+        return big[1::2]
+    big = np.full((2 * x.shape[0], 3 * x.shape[1]), 777.0)
+    big[::2, ::3] = x
+    return big[::2, ::3]
+
+
+def conv_tview(x):
+    return x if x.ndim == 1 else np.ascontiguousarray(x.T).T
+
+
+def conv_neg_stride(x):
+    return x[::-1].copy()[::-1] if x.ndim == 1 else x[::-1, ::-1].copy()[::-1, ::-1]
+
+
+def conv_list(x):
+    return x.tolist()
+
+
+def conv_tuple(x):
+    return tuple(x.tolist()) if x.ndim == 1 else tuple(tuple(row) for row in x.tolist())
+
+
+def conv_int(x):
+    return x.astype(np.int64)
+
+
+def conv_int32(x):
+    return x.astype(np.int32)
+
+
+def stream_aliasing(ctx):
+    """S (metamorphic, no model: a pure model has no notion of aliasing): caller-data aliasing, dtype / layout independence,
+    rejected constructions leave existing objects untouched"""
+    rng = ctx.rng
+    for src in alias_sources(rng):
+        nm = src['name']
+        pts = alias_points(src)
+        A = {k: np.array(src[k], dtype=np.float64, order='C') for k in ARRAY_KEYS}
+        keepA = {k: v.copy() for k, v in A.items()}
+        P = alias_profiles()
+        keepP = {k: v.copy() for k, v in P.items()}
+
+        def fail(sig, why, **extra):
+            ctx.fail('C12:aliasing:' + sig, '%s [equilibrium built from the %s data]' % (why, nm), dict(source=nm, **extra))
+
+        st, eq1 = call(alias_build, src, A)
+        if st != 'ok':
+            fail('construction-raised', 'EFITEquilibrium raised %s: %s' % (st, eq1))
+            continue
+        maps1 = alias_maps(eq1, P)
+        base = alias_probe(eq1, maps1, pts)
+        ctx.case(key=('alias', nm, 'base'))
+        # the constructor and the map functions must not modify the caller's arrays
+        for k in ARRAY_KEYS:
+            if bits(A[k]) != bits(keepA[k]):
+                fail('constructor-modified-caller-array:' + k, 'EFITEquilibrium(...) modified the caller\'s %s array in place' % k, array=k)
+        for k in P:
+            if bits(P[k]) != bits(keepP[k]):
+                fail('map-modified-caller-profile:' + k, 'map2d/map3d/map_vector2d/map_vector3d modified the caller\'s %s profile array in place: %r -> %r'
+                     % (k, keepP[k].tolist(), P[k].tolist()), profile=k)
+        # private copies give the same object
+        eq_p = alias_build(src, {k: v.copy() for k, v in keepA.items()})
+        d = alias_diff(base, alias_probe(eq_p, alias_maps(eq_p, {k: v.copy() for k, v in keepP.items()}), pts))
+        if d:
+            fail('not-deterministic', 'two constructions from equal data differ in %s' % d[:6])
+        # exposed attributes reproduce the inputs and own their memory
+        for attr, key, tr in (('r_data', 'r', False), ('z_data', 'z', False), ('psi_data', 'psi', False), ('lcfs_polygon', 'lcfs', True), ('limiter_polygon', 'lim', True)):
+            arr = getattr(eq1, attr)
+            want = keepA[key].T if tr else keepA[key]
+            if arr.shape != want.shape or bits(arr) != bits(np.ascontiguousarray(want)):
+                fail('attribute-value:' + attr, 'attribute %s does not reproduce the constructor input' % attr, attribute=attr)
+            if any(np.shares_memory(arr, A[k]) for k in ARRAY_KEYS):
+                fail('attribute-shares-caller-memory:' + attr, 'attribute %s shares memory with an array owned by the caller' % attr, attribute=attr)
+        # (a) the caller overwrites its arrays in place, one at a time
+        for k in ARRAY_KEYS:
+            for mode in ('garbage', 'nan', 'reversed'):
+                if mode == 'garbage':
+                    A[k][...] = 0.123
+                elif mode == 'nan':
+                    A[k][...] = NAN
+                else:
+                    A[k][...] = keepA[k][::-1] if A[k].ndim == 1 else keepA[k][::-1, ::-1]
+                d = alias_diff(base, alias_probe(eq1, maps1, pts))
+                ctx.case(key=('alias', nm, 'caller', k, mode))
+                ctx.count('alias:caller-overwrites')
+                if d:
+                    fail('caller-array-aliased:' + k, 'after the caller overwrote its own %s array in place (%s) these observables changed: %s' % (k, mode, d[:8]), array=k, mode=mode, changed=d)
+                A[k][...] = keepA[k]
+        for k in P:
+            P[k][...] = 9.75
+            d = alias_diff(base, alias_probe(eq1, maps1, pts))
+            ctx.case(key=('alias', nm, 'profile', k))
+            if d:
+                fail('caller-profile-aliased:' + k, 'after the caller overwrote the %s profile array it had passed to the mapping these observables changed: %s' % (k, d[:8]), profile=k, changed=d)
+            P[k][...] = keepP[k]
+        # arrays the object hands out, edited by the caller, must not change later evaluations (nor maps created afterwards)
+        for attr in ('r_data', 'z_data', 'psi_data', 'lcfs_polygon', 'limiter_polygon'):
+            arr = getattr(eq1, attr)
+            if not arr.flags.writeable:
+                ctx.count('alias:attribute-readonly')
+                continue
+            saved = arr.copy()
+            arr[...] = 0.5
+            skip = ('attr:' + attr,)
+            d = alias_diff(base, alias_probe(eq1, maps1, pts), skip) + alias_diff(base, alias_probe(eq1, alias_maps(eq1, keepP), pts), skip)
+            ctx.case(key=('alias', nm, 'attribute', attr))
+            ctx.count('alias:attribute-edited')
+            if d:
+                fail('attribute-edit-changes-evaluation:' + attr, 'after editing the array returned by .%s in place these observables changed: %s' % (attr, sorted(set(d))[:8]), attribute=attr)
+            arr[...] = saved
+        # (b) representation independence (bit-identical: every conversion to float64 is exact)
+        convs = [('fortran', conv_fortran), ('strided', conv_strided), ('transposed-view', conv_tview), ('negative-stride', conv_neg_stride),
+                 ('list', conv_list), ('tuple', conv_tuple)]
+        if src['intable']:
+            convs += [('int64', conv_int), ('int32', conv_int32)]
+        for label, cv in convs:
+            for which in ('all',) + ARRAY_KEYS:
+                arrays = {k: (cv(keepA[k].copy()) if which in ('all', k) else keepA[k].copy()) for k in ARRAY_KEYS}
+                st, eq2 = call(alias_build, src, arrays)
+                ctx.case(key=('alias', nm, 'repr', label, which))
+                ctx.count('alias:representation:' + label)
+                if st != 'ok':
+                    fail('representation-rejected:%s:%s' % (label, which), 'construction with %s given as %s raised %s: %s' % (which, label, st, eq2), conversion=label, array=which)
+                    continue
+                Pc = {k: (v.copy() if label.startswith('int') else cv(v.copy())) for k, v in keepP.items()}   # profile values are not integers
+                d = alias_diff(base, alias_probe(eq2, alias_maps(eq2, Pc), pts))
+                if d:
+                    fail('representation-dependent:%s:%s' % (label, which), 'with %s given as %s (same values) these observables differ: %s' % (which, label, d[:8]), conversion=label, array=which, changed=d)
+        # float32: identical to the equilibrium built from the float32-rounded values
+        A32 = {k: keepA[k].astype(np.float32) for k in ARRAY_KEYS}
+        P32 = {k: v.astype(np.float32) for k, v in keepP.items()}
+        st, e32 = call(alias_build, src, A32)
+        st2, e64 = call(alias_build, src, {k: v.astype(np.float64) for k, v in A32.items()})
+        ctx.case(key=('alias', nm, 'repr', 'float32'))
+        if st != 'ok' or st2 != 'ok':
+            if st != st2:
+                fail('representation-rejected:float32', 'float32 inputs raised %s, their float64 values %s' % (st, st2))
+        else:
+            d = alias_diff(alias_probe(e64, alias_maps(e64, {k: v.astype(np.float64) for k, v in P32.items()}), pts), alias_probe(e32, alias_maps(e32, P32), pts))
+            if d:
+                fail('representation-dependent:float32', 'float32 inputs differ from the same values given as float64 in %s' % d[:8], changed=d)
+        # (c) rejected constructions / calls leave existing objects untouched
+        bad = [('r-decreasing', dict(r=keepA['r'][::-1].copy())), ('r-repeated', dict(r=np.concatenate([keepA['r'][:1], keepA['r'][:-1]]))),
+               ('z-decreasing', dict(z=keepA['z'][::-1].copy())), ('psi-shape', dict(psi=keepA['psi'][:, :-1].copy())), ('psi-1d', dict(psi=keepA['psi'].ravel())),
+               ('r-2d', dict(r=keepA['psi'].copy())), ('f-1xN', dict(f=keepA['f'][:1].copy())), ('f-1d', dict(f=keepA['f'][0].copy())),
+               ('q-decreasing-abscissa', dict(q=keepA['q'][:, ::-1].copy())), ('lcfs-Nx2', dict(lcfs=keepA['lcfs'].T.copy())),
+               ('lcfs-1d', dict(lcfs=keepA['lcfs'][0].copy())), ('lcfs-3xN', dict(lcfs=np.vstack([keepA['lcfs'], keepA['lcfs'][:1]]))),
+               ('limiter-Nx2', dict(lim=keepA['lim'].T.copy())), ('lcfs-closed', dict(lcfs=np.hstack([keepA['lcfs'], keepA['lcfs'][:, :1]]))),
+               ('r-ragged', dict(r=[[1.0, 2.0], [3.0]])), ('psi-nan-axis', None)]
+        for label, over in bad:
+            if over is None:
+                continue
+            arrays = {k: v.copy() for k, v in keepA.items()}
+            arrays.update(over)
+            st, res = call(alias_build, src, arrays)
+            ctx.case(key=('alias', nm, 'rejected', label))
+            ctx.count('alias:invalid-construction:%s' % ('rejected' if st != 'ok' else 'ACCEPTED:' + label))
+            d = alias_diff(base, alias_probe(eq1, maps1, pts))
+            if d:
+                fail('failed-construction-disturbed-existing:' + label, 'after the attempted construction with %s (%s) an existing equilibrium changed in %s' % (label, st, d[:8]), attempt=label)
+        for label, prof in (('1xN', [[0.0, 0.5, 1.0]]), ('0-D', 3.0), ('ragged', [[0.0, 1.0], [1.0]]), ('decreasing', [[1.0, 0.0], [1.0, 2.0]]), ('text', 'abc')):
+            for mp in ('map2d', 'map3d', 'map_vector2d', 'map_vector3d'):
+                args = (prof,) if mp in ('map2d', 'map3d') else (keepP['tor'], prof, keepP['nrm'])
+                st, res = call(getattr(eq1, mp), *args)
+                ctx.count('alias:invalid-profile:%s' % ('rejected' if st != 'ok' else 'ACCEPTED:' + label))
+            d = alias_diff(base, alias_probe(eq1, maps1, pts))
+            ctx.case(key=('alias', nm, 'rejected-profile', label))
+            if d:
+                fail('failed-map-call-disturbed-existing:' + label, 'after map calls with an invalid profile (%s) the equilibrium / earlier maps changed in %s' % (label, d[:8]), attempt=label)
+    degenerate_polygon_probe(ctx)
+
+
+def degenerate_polygon_probe(ctx):
+    """an LCFS polygon with fewer than 3 vertices, in a subprocess (raysect's triangulate2d reads out of bounds for it);
+    outside the property (not an equilibrium): recorded, not reported as a failure"""
+    import subprocess
+    import sys
+    code = ("import numpy as np\nfrom cherab.core.math import PolygonMask2D\n"
+            "try:\n    PolygonMask2D(np.array([[0.0, 0.0], [1.0, 1.0]]))\n    print('accepted')\n"
+            "except Exception as e:\n    print('raised', type(e).__name__)\n")
+    try:
+        r = subprocess.run([sys.executable, '-c', code], stdout=subprocess.PIPE, stderr=subprocess.DEVNULL, text=True, timeout=120)
+        res = r.stdout.strip() if r.returncode == 0 else 'process died (exit %d)' % r.returncode
+    except Exception as e:  # noqa
+        res = 'probe failed: %r' % (e,)
+    ctx.extra['two_vertex_polygon'] = res
+    ctx.count('alias:two-vertex-polygon:' + res.split()[0])
+
+
 # ------------------------------------------------------------------------------------------------ run
 def run(ctx):
     ctx.rule = ('equilibria: bundled example (psi_lcfs > psi_axis), Generomak (psi_lcfs < psi_axis), synthetic Solov\'ev grids with both signs, '
@@ -1183,6 +1477,7 @@ def run(ctx):
 
     ecs = stream_equilibria(ctx)
     stream_shapes(ctx, ecs)
+    stream_aliasing(ctx)
     stream_helpers(ctx)
     ctx.extra['equilibria'] = [dict(name=ec.name, sign=ec.sign, grid=list(ec.psi.shape), bpol_max=ec.bpol_max) for ec in ecs]
     ctx.extra['float_gap_note'] = ('PoloidalFieldVector/FluxSurfaceNormal/FluxCoordToCartesian raise ZeroDivisionError when b_x^2+b_z^2 underflows '
